@@ -230,32 +230,123 @@ static Job make_job(int kind, Rng& r, int variant)
     return j;
 }
 
-// The same job run ALONE in a fresh child process (fork while no other thread is running): function-local statics, process-global
-// generators and other hidden state that is set by "whoever comes first" start from scratch there.  Returns false if the child failed.
-static bool run_isolated(const Job& j, JobResult& r)
+// The same job run ALONE in a PRISTINE process.  A server process is forked when the driver has not yet run a single solver (first
+// dispatch of the process); it never runs one itself.  For every request it forks a grandchild, which therefore starts from the state
+// of a process in which no solver has ever run: function-local statics (also `static const` thresholds fixed by whichever solver comes
+// first), process-global generators and any other hidden state are untouched there - a fork of the driver itself would inherit them.
+static bool write_all(int fd, const void* p, size_t n)
 {
-    int fd[2];
-    if (pipe(fd) != 0)
-        return false;
-    fflush(out().f);
+    const char* c = (const char*) p;
+    while (n)
+    {
+        ssize_t w = write(fd, c, n);
+        if (w <= 0)
+            return false;
+        c += w;
+        n -= (size_t) w;
+    }
+    return true;
+}
+static bool read_all(int fd, void* p, size_t n)
+{
+    char* c = (char*) p;
+    while (n)
+    {
+        ssize_t g = read(fd, c, n);
+        if (g <= 0)
+            return false;
+        c += g;
+        n -= (size_t) g;
+    }
+    return true;
+}
+struct IsoServer
+{
+    int to_fd, from_fd;
+    bool ok;
+};
+static IsoServer g_iso = {-1, -1, false};
+
+static void iso_server_loop(int in_fd, int out_fd)
+{
+    for (;;)
+    {
+        ll hdr[5];
+        if (!read_all(in_fd, hdr, sizeof(hdr)))
+            _exit(0);
+        Job j;
+        j.kind = (int) hdr[0];
+        j.n = (int) hdr[1];
+        j.nev = (int) hdr[2];
+        j.ncv = (int) hdr[3];
+        j.rule = (int) hdr[4];
+        j.A.resize(j.n, j.n);
+        if (!read_all(in_fd, j.A.data(), sizeof(double) * (size_t) j.n * (size_t) j.n))
+            _exit(0);
+        j.As = j.A.sparseView();
+        ll buf[5] = {0, 0, 0, 0, 0};
+        int c[2];
+        if (pipe(c) == 0)
+        {
+            pid_t g = fork();
+            if (g == 0)
+            {
+                close(c[0]);
+                JobResult r = run_private(j);
+                ll rb[4] = {r.ev, r.res, r.nevents, r.info};
+                write_all(c[1], rb, sizeof(rb));
+                _exit(0);
+            }
+            close(c[1]);
+            if (g > 0 && read_all(c[0], buf, 4 * sizeof(ll)))
+                buf[4] = 1;
+            close(c[0]);
+            int status = 0;
+            if (g > 0)
+                waitpid(g, &status, 0);
+        }
+        if (!write_all(out_fd, buf, sizeof(buf)))
+            _exit(0);
+    }
+}
+
+static void iso_server_start()
+{
+    static bool tried = false;
+    if (tried)
+        return;
+    tried = true;
+    int a[2], b[2];
+    if (pipe(a) != 0 || pipe(b) != 0)
+        return;
+    if (out().f)
+        fflush(out().f);
     pid_t pid = fork();
     if (pid < 0)
-        return false;
+        return;
     if (pid == 0)
     {
-        close(fd[0]);
-        JobResult c = run_private(j);
-        ll buf[4] = {c.ev, c.res, c.nevents, c.info};
-        if (write(fd[1], buf, sizeof(buf)) != (ssize_t) sizeof(buf)) {}
+        close(a[1]);
+        close(b[0]);
+        iso_server_loop(a[0], b[1]);
         _exit(0);
     }
-    close(fd[1]);
-    ll buf[4] = {0, 0, 0, 0};
-    ssize_t got = read(fd[0], buf, sizeof(buf));
-    close(fd[0]);
-    int status = 0;
-    waitpid(pid, &status, 0);
-    if (got != (ssize_t) sizeof(buf))
+    close(a[0]);
+    close(b[1]);
+    g_iso.to_fd = a[1];
+    g_iso.from_fd = b[0];
+    g_iso.ok = true;
+}
+
+static bool run_isolated(const Job& j, JobResult& r)
+{
+    if (!g_iso.ok)
+        return false;
+    ll hdr[5] = {j.kind, j.n, j.nev, j.ncv, j.rule};
+    if (!write_all(g_iso.to_fd, hdr, sizeof(hdr)) || !write_all(g_iso.to_fd, j.A.data(), sizeof(double) * (size_t) j.n * (size_t) j.n))
+        return false;
+    ll buf[5];
+    if (!read_all(g_iso.from_fd, buf, sizeof(buf)) || buf[4] != 1)
         return false;
     r.ev = buf[0];
     r.res = buf[1];
@@ -267,6 +358,7 @@ static bool run_isolated(const Job& j, JobResult& r)
 template <typename ScalarTag>
 void dispatch(const Desc& d)
 {
+    iso_server_start();   // before the first solver of this process runs
     {
         Line l("Reset");
         l.str("desc", d.raw);
